@@ -2,7 +2,7 @@
 """Render DESIGN.md §10 from the seed-matrix outputs (tools/seed_matrix.sh) and seeded/*/meta.json"""
 import json, os, re, sys
 rows = {}
-for f in sys.argv[1:]:
+for f in [a for a in sys.argv[1:] if not a.startswith("--")]:
     for l in open(f):
         l = l.rstrip("\n")
         if not l or l == "finished":
@@ -11,7 +11,7 @@ for f in sys.argv[1:]:
         rows[tag] = rest
 out = ["| seed | what the change needs to manifest | result | reported obligation(s) / reason |", "|---|---|---|---|"]
 tot = {"V": 0, "U": 0, "–": 0}
-for tag in sorted(os.listdir("/verif/seeded"), key=lambda t: (t.split("-")[0], int(t.split("-")[1]))):
+for tag in sorted([t for t in os.listdir("/verif/seeded") if re.match(r"C\d+-\d+$", t)], key=lambda t: (t.split("-")[0], int(t.split("-")[1]))):
     meta = json.load(open("/verif/seeded/%s/meta.json" % tag))
     rest = rows.get(tag, "")
     obs = sorted(set(re.findall(r"ob=([^ |]+)", rest)))
@@ -31,4 +31,12 @@ for tag in sorted(os.listdir("/verif/seeded"), key=lambda t: (t.split("-")[0], i
     out.append("| %s | %s | %s | %s |" % (tag, meta["needs_to_manifest"].replace("|", "\\|"), res, why.replace("|", "\\|")))
 out.append("")
 out.append("Totals: %d reported as VIOLATION, %d UNDECIDED (extraction anchor / struct shape / tool limit - never an alarm), %d not noticed." % (tot["V"], tot["U"], tot["–"]))
-print("\n".join(out))
+text = "\n".join(out)
+if "--write" in sys.argv:
+    p = "/verif/DESIGN.md"
+    d = open(p).read()
+    a = d.index("<!-- SEEDTABLE BEGIN -->") + len("<!-- SEEDTABLE BEGIN -->")
+    b = d.index("<!-- SEEDTABLE END -->")
+    open(p, "w").write(d[:a] + "\n" + text + "\n" + d[b:])
+else:
+    print(text)
